@@ -125,7 +125,8 @@ pub mod fslog {
     }
 }
 
-/// Drop-in replacements for the parts of `std::fs` the crate uses.
+/// Drop-in replacements for the parts of `std::fs` the crate uses.  Every operation is a scheduling
+/// point of the deterministic scheduler (taken before the recorder's lock).
 pub mod fs {
     use super::fslog::{self, Verdict};
     use std::io::{self, Read, Seek, SeekFrom, Write};
@@ -164,6 +165,7 @@ pub mod fs {
 
         pub fn open<P: AsRef<Path>>(&self, path: P) -> io::Result<File> {
             let path = path.as_ref();
+            super::sched::yield_point();
             let run = |options: &OpenOptions| {
                 std::fs::OpenOptions::new()
                     .read(options.read)
@@ -200,6 +202,7 @@ pub mod fs {
         }
 
         pub fn metadata(&self) -> io::Result<std::fs::Metadata> {
+            super::sched::yield_point();
             let mut guard = fslog::lock();
             let state = match guard.as_mut() {
                 Some(state) if self.handle != usize::MAX => state,
@@ -223,6 +226,7 @@ pub mod fs {
         }
 
         pub fn set_len(&self, size: u64) -> io::Result<()> {
+            super::sched::yield_point();
             let mut guard = fslog::lock();
             let state = match guard.as_mut() {
                 Some(state) if self.handle != usize::MAX => state,
@@ -241,6 +245,7 @@ pub mod fs {
 
     impl Read for File {
         fn read(&mut self, buf: &mut [u8]) -> io::Result<usize> {
+            super::sched::yield_point();
             let mut guard = fslog::lock();
             let state = match guard.as_mut() {
                 Some(state) if self.handle != usize::MAX => state,
@@ -260,6 +265,7 @@ pub mod fs {
 
     impl Seek for File {
         fn seek(&mut self, position: SeekFrom) -> io::Result<u64> {
+            super::sched::yield_point();
             let mut guard = fslog::lock();
             let state = match guard.as_mut() {
                 Some(state) if self.handle != usize::MAX => state,
@@ -283,6 +289,7 @@ pub mod fs {
 
     impl Write for File {
         fn write(&mut self, buf: &[u8]) -> io::Result<usize> {
+            super::sched::yield_point();
             let mut guard = fslog::lock();
             let state = match guard.as_mut() {
                 Some(state) if self.handle != usize::MAX => state,
@@ -312,6 +319,7 @@ pub mod fs {
 
     pub fn create_dir_all<P: AsRef<Path>>(path: P) -> io::Result<()> {
         let path = path.as_ref();
+        super::sched::yield_point();
         let mut guard = fslog::lock();
         let state = match guard.as_mut() {
             Some(state) => state,
@@ -329,6 +337,7 @@ pub mod fs {
 
     pub fn metadata<P: AsRef<Path>>(path: P) -> io::Result<std::fs::Metadata> {
         let path = path.as_ref();
+        super::sched::yield_point();
         let mut guard = fslog::lock();
         let state = match guard.as_mut() {
             Some(state) => state,
